@@ -71,6 +71,7 @@ func VerifC13TokenFetchFaults() {
 	ctx := context.Background()
 	inner := &vfs.Storage{}
 	t0 := vf.Now()
+	vf.ShortScenario(t0, time.Second)
 	vfs.StoreRoots(ctx, inner, t0)
 	_, token, err := CreateServerLedActivationToken(ctx, inner, &types.ServerLedRegistrationRequest{})
 	vf.Assert("token-created", err == nil)
